@@ -57,6 +57,8 @@ type HostSpec struct {
 	ClockAheadMs int `json:"clock_ahead_ms,omitempty"`
 	// Body401DelayMs: the body of the registry's 401 responses takes this long (virtual time) to arrive
 	Body401DelayMs int `json:"body401_delay_ms,omitempty"`
+	// Body401DelayOnce: only the first 401 the registry sends is slow
+	Body401DelayOnce bool `json:"body401_delay_once,omitempty"`
 }
 
 // Triple is one (type, resource, action).
@@ -159,13 +161,14 @@ type World struct {
 	nTokens       int
 	Start         time.Time
 	tokenRequests int
+	slowSent      map[string]bool
 	Allowed       map[string]map[Triple]bool // per registry host: what its credential may be granted when Refuse is set
 	refresh       map[string]string          // current valid refresh token per registry host
 	perHost       map[string]int
 }
 
 func New(hosts []HostSpec) *World {
-	w := &World{Hosts: map[string]*HostSpec{}, byRealm: map[string][]*HostSpec{}, Start: time.Now(), Allowed: map[string]map[Triple]bool{}, refresh: map[string]string{}, perHost: map[string]int{}}
+	w := &World{Hosts: map[string]*HostSpec{}, byRealm: map[string][]*HostSpec{}, Start: time.Now(), Allowed: map[string]map[Triple]bool{}, refresh: map[string]string{}, perHost: map[string]int{}, slowSent: map[string]bool{}}
 	for i := range hosts {
 		h := &hosts[i]
 		w.Hosts[h.Name] = h
@@ -381,7 +384,8 @@ func (w *World) registry(h *HostSpec, req *http.Request, a *Arrival) *http.Respo
 	}
 	a.Status = 401
 	r := resp(req, 401, hdr, `{"errors":[{"code":"UNAUTHORIZED","message":"authentication required"}]}`)
-	if h.Body401DelayMs > 0 {
+	if h.Body401DelayMs > 0 && !(h.Body401DelayOnce && w.slowSent[h.Name]) {
+		w.slowSent[h.Name] = true
 		r.Body = &slowBody{ReadCloser: r.Body, d: time.Duration(h.Body401DelayMs) * time.Millisecond}
 	}
 	return r
